@@ -120,9 +120,74 @@ def generate_text(ctx, rng):
     return "\n".join(out), info
 
 
+GNAME = {(1, 1): "G00", (1, 2): "G01", (2, 2): "G11", (2, 3): "G12"}
+
+
+def generate_general(ctx):
+    """every ring count: (a) the traced per-class neighbour weights in energy form are the symmetric pair coefficients of
+    Lemmas/BundleForm.lean (+ one swirl constant for the donor) - one generated theorem per (class, neighbour role);
+    (b) instances of Lemmas/Exchange.lean for the real tables of every ring count 2..20"""
+    import re
+    from harness.checks import c04, c08
+    defs = c04.generate(ctx)                      # Gen/C04.lean as of the current source
+    c08.generate(ctx, c08.FULL_N)                 # Gen/C08T<n>.lean as of the current source
+    L = ["-- GENERATED by /verif/harness (C01, every ring count): energy form of the traced class weights.",
+         "import Dassh.Lemmas.BundleForm", "import Dassh.Lemmas.Attr", "import Mathlib.Tactic.FieldSimp", "import Mathlib.Tactic.Ring", "",
+         "namespace Dassh.Gen.C01Roles", "open Dassh.Gen.C04 Dassh.BundleForm", "",
+         "variable {K : Type} [Field K]", "", "set_option linter.unusedVariables false", "",
+         "set_option hygiene false in",
+         "macro \"role_tac\" : tactic => `(tactic| (",
+         "  obtain ⟨n1, n2, n3, n4, n5, n6, n7, n8, n9, n10, n11, n12, n13⟩ := hn",
+         "  simp only [gen_defs, mcp0, mcp1, mcp2, G00, G01, G11, G12, Csw, kappa, hsw]",
+         "  field_simp",
+         "  try ring))", ""]
+    names = []
+    roles = 0
+    for key in sorted(k[len("Tnew_"):] for k in defs if k.startswith("Tnew_int_")):
+        m = re.match(r"int_(\d)_(\d+)_(std|ca)(?:_d(\d))?$", key)
+        a, nbt, donor = int(m.group(1)), [int(c) for c in m.group(2)], (int(m.group(4)) if m.group(4) else None)
+        for k, b in enumerate(nbt):
+            pair = (min(a, b), max(a, b))
+            if pair not in GNAME:
+                ctx.problem("trace-shape", "c01 roles", "class %s has a neighbour pair of types %s without energy-form coefficient" % (key, pair))
+                continue
+            rhs = "%s e" % GNAME[pair] + (" + Csw e" if donor == k else "")
+            nm = "role_%s_n%d" % (key, k)
+            L.append("theorem %s (e : Env K) (hn : NZ e) (hsw : e.sw_1 = e.sw_2) :\n    mcp%d e * WTn%d_%s e = (%s) * e.dz := by\n  role_tac\n"
+                     % (nm, a - 1, k, key, rhs))
+            names.append(nm)
+            roles += 1
+        for k in range(len(nbt), 5):
+            nm = "role_%s_n%d" % (key, k)
+            L.append("theorem %s (e : Env K) : WTn%d_%s e = 0 := by\n  simp only [gen_defs]\n" % (nm, k, key))
+            names.append(nm)
+    L.append("end Dassh.Gen.C01Roles\n")
+    ctx.gen("C01Roles", "\n".join(L))
+    ctx.count("role_identities", roles)
+    # (b) per ring count
+    ns = c08.FULL_N
+    A = ["-- GENERATED by /verif/harness (C01, every ring count): exchange cancels on the real tables.",
+         "import Dassh.Lemmas.Exchange"] + ["import Dassh.Gen.C08T%d" % n for n in ns] + ["", "namespace Dassh.Gen.C01All",
+         "open Finset Dassh.Table Dassh.Exchange", ""]
+    for n in ns:
+        t = "Dassh.Gen.C08T%d" % n
+        for tag, don in (("cw", "donorCW"), ("ccw", "donorCCW")):
+            A.append("theorem exch_n%d_%s {K : Type} [Field K] [LinearOrder K] [IsStrictOrderedRing K] (g : Nat → Nat → K) (hg : ∀ a b, g a b = g b a)\n"
+                     "    (c : K) (mcp : Nat → K) (hm : ∀ a, mcp a ≠ 0) (T q : Nat → K) :\n"
+                     "    ∑ i ∈ range %s.ncool, mcp (%s.tyf i) * (bundleStep %s.tyf %s.nb (donorN %s.nint %s.%s) g c mcp T q i - T i)\n"
+                     "      = ∑ i ∈ range %s.ncool, q i :=\n"
+                     "  bundle_conservation %s.cert_sym (donorRingCert_sound %s.nint_le %s.cert_donor_ring_%s) g hg c mcp hm T q\n"
+                     % (n, tag, t, t, t, t, t, t, don, t, t, t, t, tag))
+    A.append("def ringCounts : List Nat := [%s]" % ", ".join(map(str, ns)))
+    A.append("end Dassh.Gen.C01All\n")
+    ctx.gen("C01All", "\n".join(A))
+    return names
+
+
 def generate(ctx):
     txt, info = generate_text(ctx, random.Random(3000))
     ctx.gen("C01", txt)
+    generate_general(ctx)
     return info
 
 
@@ -294,6 +359,7 @@ def run(ctx):
         txt, info = generate_text(ctx, random.Random(3000))
         ctx.gen("C01", txt)
         ctx.stats["trace"] = info
+        generate_general(ctx)
         ok_line = bt.check_mfrc_line()
         ctx.obligation("source line `_mfrc = area * int_flow_rate / bundle area` unchanged in _setup_flowrate", ok_line,
                        kind="translator-validation")
